@@ -16,9 +16,10 @@ if os.path.exists(na_path):
 
 ids = [json.loads(l)['id'] for l in open(os.path.join(ROOT, 'properties.jsonl'))]
 checks, na = [], []
+READY = set(open(os.path.join(ROOT, 'ready.txt')).read().split())
 for pid in ids:
     path = os.path.join(ROOT, 'props', pid.lower() + '.py')
-    if pid in NA_REASONS or not os.path.exists(path):
+    if pid in NA_REASONS or not os.path.exists(path) or pid not in READY:
         na.append({'property_id': pid, 'reason': NA_REASONS.get(pid, 'check not built yet in this round (see DESIGN.md section 7 for the planned harness)')})
         continue
     m = importlib.import_module('props.' + pid.lower())
